@@ -416,6 +416,16 @@ fn ctor_case(v: &mut Verdicts, c: &Value) {
             let gm = guard(|| Matrix::new(vec![x, 1.0], 2, 1) == Matrix::new(vec![y, 1.0], 2, 1));
             (gv == Some(e) && gm == Some(e), format!("{}", e), json!([gv, gm]))
         }
+        "len_mismatch" => {
+            let (n, m) = (i("n") as usize, i("m") as usize);
+            let a = Vector::new((0..n).map(|k| k as f64 + 1.0).collect::<Vec<f64>>());
+            let b = Vector::new((0..m).map(|k| k as f64 + 1.0).collect::<Vec<f64>>());
+            let e = c["exp"].as_bool().unwrap();
+            let g1 = guard(|| a == b);
+            let g2 = guard(|| a.close_to(&b, 0.5));
+            let g3 = guard(|| b == a);
+            (g1 == Some(e) && g2 == Some(e) && g3 == Some(e), if e { "same-length".into() } else if n == 0 || m == 0 { "one-empty".into() } else { "prefix".into() }, json!([g1, g2, g3]))
+        }
         "shape_mismatch" => {
             // same data, different shape (or length): never equal / close
             let (r, cc) = (i("r") as usize, i("c") as usize);
